@@ -547,7 +547,7 @@ def io_oracle(pid, t, md, kv):
         if pid in ('C07', 'C08'):
             if heads != ['ok'] * len(md['inits']):
                 out.append('sends reported %s' % heads)
-            if slen != len(md['stream']):
+            if slen != len(md['stream']) and not md.get('edited'):
                 out.append('the sink holds %d bytes, the messages are %d bytes' % (slen, len(md['stream'])))
             if kind == 'asend':
                 for o in outs:
